@@ -264,6 +264,7 @@ def _run(ctx, st):
                     j += 1
                     if ctx.mine(j):
                         classify(text, st, ctx, "odd-codepoints")
+    codepoint_sweep(ctx, st, ctx.pick(4096, 512), ctx.pick(0x3100, 0x10000))
     # (5c) string arguments that are hostile to whatever a function might feed them to:
     # regular expressions, format strings, numbers, dates, paths
     hostile = ["a{4294967295}", "a{4294967294}", "a{1,4294967296}", "(" * 600, "(" * 600 + ")" * 600, "[", "(?P<n>", "(?P<n>a)(?P<n>b)",
@@ -317,6 +318,59 @@ def _run(ctx, st):
                                         rng.randrange(0x1F300, 0x1F700)]))
                         for _ in range(rng.randint(1, 30)))
         classify(s, st, ctx, "unicode")
+
+
+def _quiet_outcome(text):
+    try:
+        ODataParser().parse(ODataLexer().tokenize(text))
+        return "ok"
+    except exceptions.ODataException:
+        return "ok"
+    except RecursionError:
+        return "foreign"
+    except Exception:
+        return "foreign"
+
+
+def codepoint_sweep(ctx, st, block, single_upto):
+    """Every Unicode code point (a) inside each quoted literal kind - plain string, geography,
+    duration - `block` consecutive code points per literal (the quote itself left out), alone,
+    as a comparison operand and as a function argument; a failing block is bisected to its
+    shortest failing run; (b) on its own between and next to tokens (U+0000..single_upto)."""
+    frames = ["%s", "a eq %s", "geo.length(%s) gt 1", "x/any(y: y eq %s) and b in (%s, 1)"]
+    j = 0
+    for start in range(0, 0x110000, block):
+        body = "".join(chr(c) for c in range(start, min(start + block, 0x110000)) if c != 0x27)
+        for prefix in ("", "geography", "duration", "GEOGRAPHY"):
+            for fr in frames:
+                j += 1
+                if not ctx.mine(j):
+                    continue
+                ctx.count("sweep_literals")
+                ctx.count("sweep_codepoints", len(body))
+                mk = lambda b: fr.replace("%s", prefix + "'" + b + "'")
+                if _quiet_outcome(mk(body)) != "ok":
+                    pl = body
+                    while len(pl) > 1:
+                        h = len(pl) // 2
+                        if _quiet_outcome(mk(pl[:h])) != "ok":
+                            pl = pl[:h]
+                        elif _quiet_outcome(mk(pl[h:])) != "ok":
+                            pl = pl[h:]
+                        else:
+                            break
+                    classify(mk(pl), st, ctx, "codepoint-in-literal")
+                else:
+                    classify(mk(body), st, ctx, "codepoint-in-literal")
+    j = 0
+    for c in range(0, single_upto):
+        j += 1
+        if not ctx.mine(j):
+            continue
+        ch = chr(c)
+        for text in ("a" + ch + "eq 1", "a eq 1" + ch, "a eq " + ch + "1 and b", "f(a," + ch + "b)"):
+            ctx.count("sweep_single")
+            classify(text, st, ctx, "codepoint-between-tokens")
 
 
 # characters that Python's re.I / str.upper / str.lower / str.casefold relate to ASCII
